@@ -10,6 +10,7 @@ RULE = ("generated G_gen witness graphs (2-3 stochastic episodes, all supergraph
         "and out of range (negative and too large; episodes differ so clip and wrap are distinguishable); every pair that the property "
         "says must agree is compared leaf by leaf (exact: witness state is integer); one evaluation = one identity checked on one "
         "graph; non-trivial = graph with >=2 episodes on which >=3 API paths were compared; distinct by spec digest x mode x identity")
+RULE += ' Built later: rollouts started from a non-zero step (rollout;rollout, late start); a falsy params override (bare scalar 0).'
 MIN_NONTRIVIAL = {"quick": 30, "thorough": 400}
 DECIDING = ["leaves_compared", "identities_checked"]
 ASSUMPTIONS = ["trace-free witnesses (io_callback does not batch under vmap)", "timings_eps is part of the compared state (it decides what the steps see)"]
